@@ -89,6 +89,7 @@ type FnEnc struct {
 	sitePrefix          string
 	curArgs             []Val // arguments of the contract call being applied (assigns anything)
 	curBlock            *ssa.BasicBlock
+	checkOnly           bool // check obligations without assuming them afterwards (hints about a value that is then forgotten)
 	curIdx              int
 	callCount           map[string]int
 	freeVars            []Val
@@ -163,7 +164,7 @@ func (fe *FnEnc) oblig(kind, label, goal, src string, pos token.Pos) *Obligation
 func (fe *FnEnc) check(kind, label, cond, src string, pos token.Pos) {
 	goal := implies(fe.guard, cond)
 	fe.oblig(kind, label, goal, src, pos)
-	if goal != "true" {
+	if goal != "true" && !fe.checkOnly {
 		fe.s.assert(goal)
 	}
 }
